@@ -18,6 +18,20 @@ CLAIMS = {
          "abs/rel jump agreement between emitter and handlers; argument-taking agreement. Does not decide: the property's second sentence (depths actually reached at run time), "
          "line-table monotonicity for every program, StackDepth's walk being the maximum over all paths.",
          "DESIGN.md §4 C12"),
+ "C02": ("decision-table extraction by symbolic interpretation of the unwinding loop (block type x reason); emission-trace comparison of statement code schemes",
+         "Decides: the unwinder's (block, why) table (pop/unwind/pushes/exception-state swap/Lasti/leave) against ceval.c fast_block_end; code schemes of for/while/if/try/with/break/continue/raise/assert/return. "
+         "Does not decide: END_FINALLY/WITH_CLEANUP stack juggling beyond net effects (C12), __exit__ return-value semantics, traceback content across frames.",
+         "DESIGN.md §4 C02"),
+ "C04": ("emission-trace comparison of the call-site and function-object protocols (symbolic interpretation of the compiler)",
+         "Decides: push order of callee/positionals/keyword pairs/*/**, opcode by star forms, packed argc; decorators, defaults, kw-defaults, annotations, closure, code, qualname order for MAKE_FUNCTION/MAKE_CLOSURE. "
+         "Does not decide: the binder's index arithmetic in EvalCode (value-dependent), TypeError wording.",
+         "DESIGN.md §4 C04"),
+ "C19": ("emission-trace comparison of import statement code schemes",
+         "Decides: IMPORT_NAME/IMPORT_FROM/IMPORT_STAR/POP_TOP schemes and name binding for import forms. Does not decide: which exception a missing module raises; state left by a failing module body.",
+         "DESIGN.md §4 C19"),
+ "C20": ("emission-trace comparison (PRINT_EXPR gating)",
+         "Decides: PRINT_EXPR only for interactive top-level expression statements. Does not decide: equivalence of line-at-a-time and whole-file execution; the incomplete-input decision (matches error text, a value).",
+         "DESIGN.md §4 C20"),
 }
 _todo = "rules for this property are designed (DESIGN.md §4) but not yet implemented in this revision of the checker"
-NA = {p: _todo for p in ["C02","C03","C04","C06","C07","C08","C10","C11","C13","C14","C15","C16","C17","C18","C19","C20"]}
+NA = {p: _todo for p in ["C03","C06","C07","C08","C10","C11","C13","C14","C15","C16","C17","C18"]}
